@@ -916,17 +916,19 @@ theorem gen_arg_range (rows : Nat) (env : MepEnv) (cats i c : Nat) (a : Int) :
     · simp [Src.range] at hs
   · intro lo sup hs h1 h2
     simp only [Gen.mutationCand, Src.range, evalZ, binZ, cmpZ, b2i, cellEnv, Vars.env] at hs
-    by_cases h0 : (rows : Int) ≤ env.patchLength
-    · simp [h0] at hs
+    by_cases h0 : (rows : Int) > env.patchLength
     · by_cases h3 : (i : Int) < (rows : Int) - env.patchLength
       · simp [h0, h3] at hs; omega
       · simp [h0, h3] at hs
+    · have h3 : ¬ (i : Int) < 0 := by omega
+      simp [h0, h3] at hs
 
 /-- `mutation`: for an individual of `rows` rows (ITS size) mutated under ANY environment `env` – no
     relation whatsoever between `rows` and `env.codeLength` / `env.patchLength` is assumed – the
-    candidate gene built for the locus of the iterator is the model's `drawGene` in the individual's
-    own geometry (standard section before `rows - patch_length`, a terminal after; terminals only
-    when `rows ≤ patch_length`), its draws obey the model's `DrawOK`, and the loop has the modelled
+    candidate gene built for the locus of the iterator (`ix < patch ? … : …` with
+    `patch = size() > patch_length ? size() - patch_length : 0`) is the model's `drawGene` in the
+    individual's own geometry (standard section before `rows - patch_length`, a terminal after;
+    terminals only when `rows ≤ patch_length`), its draws obey the model's `DrawOK`, and the loop has the modelled
     shape: it walks `begin()..end()` (the exons), tests `random::boolean(pgm)`, replaces the gene only
     when it differs and counts the replacements. -/
 theorem gen_mutation_denotes (ss : SymSet) (rows : Nat) (env : MepEnv) (i c : Nat)
@@ -938,28 +940,30 @@ theorem gen_mutation_denotes (ss : SymSet) (rows : Nat) (env : MepEnv) (i c : Na
     Gen.mutationShape = ["exons", "bernoulli(pgm)", "differs", "count", "assign"] := by
   refine ⟨?_, ?_, rfl⟩
   · simp only [Gen.mutationCand, Src.gene, evalZ, binZ, cmpZ, b2i, cellEnv, Vars.env, drawGene]
-    by_cases h0 : rows ≤ env.patchLength
-    · have h1 : (rows : Int) ≤ env.patchLength := by omega
-      have h2 : ¬ i < rows - env.patchLength := by omega
-      simp [h1, h2]
-    · have h1 : ¬ (rows : Int) ≤ env.patchLength := by omega
+    by_cases h0 : env.patchLength < rows
+    · have h1 : (rows : Int) > env.patchLength := by omega
       by_cases h : i < rows - env.patchLength
       · have h2 : (i : Int) < (rows : Int) - env.patchLength := by omega
         simp [h, h1, h2]
       · have h2 : ¬ ((i : Int) < (rows : Int) - env.patchLength) := by omega
         simp [h, h1, h2]
-  · simp only [Gen.mutationCand, Src.drawOK, evalZ, binZ, cmpZ, b2i, cellEnv, Vars.env, DrawOK]
-    by_cases h0 : rows ≤ env.patchLength
-    · have h1 : (rows : Int) ≤ env.patchLength := by omega
+    · have h1 : ¬ (rows : Int) > env.patchLength := by omega
       have h2 : ¬ i < rows - env.patchLength := by omega
-      simp [h1, h2]
-    · have h1 : ¬ (rows : Int) ≤ env.patchLength := by omega
+      have h3 : ¬ (i : Int) < 0 := by omega
+      simp [h1, h2, h3]
+  · simp only [Gen.mutationCand, Src.drawOK, evalZ, binZ, cmpZ, b2i, cellEnv, Vars.env, DrawOK]
+    by_cases h0 : env.patchLength < rows
+    · have h1 : (rows : Int) > env.patchLength := by omega
       by_cases h : i < rows - env.patchLength
       · have h2 : (i : Int) < (rows : Int) - env.patchLength := by omega
         have h3 : ((i : Int) + 1).toNat = i + 1 := by omega
         simp [h, h1, h2, h3]
       · have h2 : ¬ ((i : Int) < (rows : Int) - env.patchLength) := by omega
         simp [h, h1, h2]
+    · have h1 : ¬ (rows : Int) > env.patchLength := by omega
+      have h2 : ¬ i < rows - env.patchLength := by omega
+      have h3 : ¬ (i : Int) < 0 := by omega
+      simp [h1, h2, h3]
 
 /-- `crossover(lhs, rhs)`: `from` is `rhs` when the coin `b` holds and `lhs` otherwise, `to` is a
     copy of the other one (as in the model's `crossover`); the switch has one case per
@@ -1113,7 +1117,7 @@ theorem gen_gene_args (lo sup : Nat) :
 /-- No unsigned computation in the extracted bounds wraps around: every intermediate value of every
     generated expression that is evaluated is a natural number – for the constructor under its
     precondition `patch_length ≤ code_length`; for `mutation` under NO assumption relating the
-    individual's size to the environment (before fix 6e548ec `size() - patch_length` wrapped for an
+    individual's size to the environment (before fix 936f9ad `size() - patch_length` wrapped for an
     individual shorter than the patch length of the environment it was given); for crossover when
     `size ≥ 1`. -/
 theorem gen_nowrap (rows : Nat) (env : MepEnv) (cats i c : Nat) (hr : 1 ≤ rows)
@@ -1131,11 +1135,12 @@ theorem gen_nowrap (rows : Nat) (env : MepEnv) (cats i c : Nat) (hr : 1 ≤ rows
       Gen.ctorDims, Vars.env]
     omega
   · simp only [Gen.mutationCand, Src.nowrap, GenSem.nowrap, evalZ, binZ, cmpZ, b2i, cellEnv, Vars.env]
-    by_cases h0 : (rows : Int) ≤ env.patchLength
-    · simp [h0]
+    by_cases h0 : (rows : Int) > env.patchLength
     · by_cases h1 : (i : Int) < (rows : Int) - env.patchLength
       · simp [h0, h1]; omega
       · simp [h0, h1]; omega
+    · have h1 : ¬ (i : Int) < 0 := by omega
+      simp [h0, h1]
   all_goals
     simp [Gen.xoverOnePoint, Gen.xoverTwoPoints, Gen.xoverUniform,
       Gen.destroy, Write.nowrap, Range.nowrap, Src.nowrap, Draw.nowrap, GenSem.nowrap, evalZ, binZ,
